@@ -464,11 +464,18 @@ type attack struct {
 func c07attack(r *rng.R, i int) attack {
 	var a attack
 	a.End = rng.Pick(r, []string{"fin", "rst", "halfclose", "fin", "rst"})
-	switch r.Intn(7) {
+	switch r.Intn(8) {
+	case 7:
+		// not an attack on the parser but on the reply path: another client fetches large replies while the
+		// witness is slow to pick up its own large reply (handled by slowWitness, no stream of its own)
+		a.Kind = "big-replies-vs-slow-reading-witness"
+		a.End = "concurrent"
+		a.Stream = []byte(fmt.Sprintf("big-replies-%d", i))
+		return a
 	case 6:
 		// the heavy classes explicitly: deep nesting, allocation-bomb headers, very wide arrays
 		var heavy []c06case
-		want := rng.Pick(r, []string{"deep-nesting", "deep-nesting", "bomb-header", "wide"})
+		want := rng.Pick(r, []string{"deep-nesting", "deep-nesting", "bomb-header", "wide", "deep-nesting-16MiB"})
 		for _, f := range c06.fixed {
 			if f.Class == want {
 				heavy = append(heavy, f)
@@ -521,7 +528,7 @@ func c07attack(r *rng.R, i int) attack {
 		a.Stream = s[:r.Intn(len(s)+1)]
 		a.Kind = "mid-request-cut"
 	}
-	if len(a.Stream) > 1<<20 {
+	if len(a.Stream) > 1<<20 && a.Kind != "heavy:deep-nesting-16MiB" {
 		a.Stream = a.Stream[:1<<20]
 	}
 	return a
@@ -626,6 +633,20 @@ func c07session(idx int) run.Result {
 			}
 			continue
 		}
+		if a.End == "concurrent" {
+			bad, inconcl := slowWitness(srv.port, n, &res)
+			res.Count("witness_exchanges", 1)
+			if inconcl != "" {
+				res.Count("slow_witness_inconclusive", 1)
+			} else if bad != "" {
+				fail("C07:witness-disturbed:"+a.Kind, "every other connection continues to receive the correct replies to its own requests", bad)
+				if !restart() {
+					res.Inconclusive = "could not restart server child"
+					return res
+				}
+			}
+			continue
+		}
 		finish := a.play(srv.port)
 		witness := func() string {
 			if v, err := wit.do("GET", "w:"+n); err != nil {
@@ -682,6 +703,108 @@ func c07session(idx int) run.Result {
 	return res
 }
 
+// slowWitness: a witness connection with a small receive buffer asks for an 8 MiB value and picks the reply up
+// late; meanwhile another connection fetches its own 8 MiB value several times. Both must get exactly their
+// own bytes. (The reply write of the witness is still in flight - the socket buffers cannot hold it - while
+// the other connection's replies are produced.)
+func slowWitness(port int, n string, res *run.Result) (bad string, inconclusive string) {
+	const size = 8 << 20
+	pat := func(tag string) string {
+		unit := tag + n + ";"
+		return strings.Repeat(unit, size/len(unit)+1)[:size]
+	}
+	wv, av := pat("w"), pat("a")
+	sw, err := dialSrv(port)
+	if err != nil {
+		return "", "slow witness could not connect"
+	}
+	defer sw.c.Close()
+	sw.c.(*net.TCPConn).SetReadBuffer(32 << 10)
+	at, err := dialSrv(port)
+	if err != nil {
+		return "", "second client could not connect"
+	}
+	defer at.c.Close()
+	if v, err := sw.do("SET", "wbig:"+n, wv); err != nil || !resp.Equal(v, resp.Status("OK")) {
+		return fmt.Sprintf("SET of the witness's large value: %v %v", v, err), ""
+	}
+	if v, err := at.do("SET", "abig:"+n, av); err != nil || !resp.Equal(v, resp.Status("OK")) {
+		return fmt.Sprintf("SET of the second client's large value: %v %v", v, err), ""
+	}
+	sw.c.SetDeadline(time.Now().Add(60 * time.Second))
+	if _, err := sw.c.Write(resp.Encode(resp.Cmd("GET", "wbig:"+n))); err != nil {
+		return "", "write failed"
+	}
+	// wait (watchdog 2 s, not a verdict) until the server has started writing the reply: its socket has unsent data queued
+	lp := sw.c.LocalAddr().(*net.TCPAddr).Port
+	for dl := time.Now().Add(2 * time.Second); time.Now().Before(dl) && txQueue(port, lp) == 0; {
+		time.Sleep(time.Millisecond)
+	}
+	if txQueue(port, lp) > 0 {
+		res.Count("slow_witness_reply_write_in_flight", 1)
+	}
+	diffAt := func(got resp.Value, want string) string {
+		if got.K != '$' || got.Null {
+			return "not a bulk string: " + clipS(got.String(), 80)
+		}
+		if string(got.B) == want {
+			return ""
+		}
+		if len(got.B) != len(want) {
+			return fmt.Sprintf("length %d, want %d", len(got.B), len(want))
+		}
+		for i := range got.B {
+			if got.B[i] != want[i] {
+				lo := i - 8
+				if lo < 0 {
+					lo = 0
+				}
+				return fmt.Sprintf("byte %d differs: got %q, want %q", i, got.B[lo:i+24], want[lo:i+24])
+			}
+		}
+		return "?"
+	}
+	for k := 0; k < 4; k++ {
+		v, err := at.do("GET", "abig:"+n)
+		if err != nil {
+			return fmt.Sprintf("second client GET #%d: %v", k, err), ""
+		}
+		if d := diffAt(v, av); d != "" {
+			return fmt.Sprintf("the second client's GET #%d of its own 8 MiB value returned other bytes: %s", k, d), ""
+		}
+	}
+	v, err := sw.read()
+	if err != nil {
+		return fmt.Sprintf("slow witness read: %v", err), ""
+	}
+	if d := diffAt(v, wv); d != "" {
+		return "the slow-reading witness's GET of its own 8 MiB value returned bytes it never wrote (while another client was fetching large replies): " + d, ""
+	}
+	at.do("DEL", "abig:"+n)
+	sw.do("DEL", "wbig:"+n)
+	return "", ""
+}
+
+// txQueue returns the unsent bytes queued on the socket srvPort->cliPort (any process in this network namespace).
+func txQueue(srvPort, cliPort int) int64 {
+	l, r := fmt.Sprintf(":%04X", srvPort), fmt.Sprintf(":%04X", cliPort)
+	for _, f := range []string{"/proc/net/tcp", "/proc/net/tcp6"} {
+		b, err := os.ReadFile(f)
+		if err != nil {
+			continue
+		}
+		for _, ln := range strings.Split(string(b), "\n")[1:] {
+			fs := strings.Fields(ln)
+			if len(fs) >= 5 && strings.HasSuffix(fs[1], l) && strings.HasSuffix(fs[2], r) {
+				var tx, rx int64
+				fmt.Sscanf(fs[4], "%x:%x", &tx, &rx)
+				return tx
+			}
+		}
+	}
+	return 0
+}
+
 func firstLineOf(s string, prefixes ...string) string {
 	for _, l := range strings.Split(s, "\n") {
 		for _, p := range prefixes {
@@ -698,7 +821,7 @@ func init() {
 	run.Register(&run.Prop{
 		ID: "C07", Level: "exploration",
 		Rule: func(tier string) string {
-			return "two monitors. (in-process, hook H1, handlers: bundled example store and a recording double alternating) complete boundary-argument sweep of index/count/limit/score arithmetic (12x12 grids of {-2^63..2^63-1} for GETRANGE/SUBSTR/LRANGE/ZRANGE/ZREVRANGE, LIMIT offset x count grids, 12x12 score-bound grids, extreme ints/floats, empty and wrong-type keys) on populated and missing keys, in batches of 60 requests; then seeded pipelines (C03), hostile streams (C06), top-level values and malformed handler results (C04) ending in EOF or reset. Oracle: no panic reaches the wrapper around the connection loop, the loop returns, the connection is closed and deregistered, replies are well-framed, sweeps stay in sync to a trailing ECHO. (process level) sessions against a child running the real example server on a real TCP port under RLIMIT_AS=4GiB: an attacker connection plays one hostile case and ends by FIN, RST (SO_LINGER 0), half-close, mid-request cut or never reading; a witness connection opened before does SET/GET/ECHO around each attack and must get exact replies; a fresh dial + PING must succeed; child exit = violation. distinct = hash of stream+handler (in-process) / attack stream+ending (process level)"
+			return "two monitors. (in-process, hook H1, handlers: bundled example store and a recording double alternating) complete boundary-argument sweep of index/count/limit/score arithmetic (12x12 grids of {-2^63..2^63-1} for GETRANGE/SUBSTR/LRANGE/ZRANGE/ZREVRANGE, LIMIT offset x count grids, 12x12 score-bound grids, extreme ints/floats, empty and wrong-type keys) on populated and missing keys, in batches of 60 requests; then seeded pipelines (C03), hostile streams (C06), top-level values and malformed handler results (C04) ending in EOF or reset. Oracle: no panic reaches the wrapper around the connection loop, the loop returns, the connection is closed and deregistered, replies are well-framed, sweeps stay in sync to a trailing ECHO. (process level) sessions against a child running the real example server on a real TCP port under RLIMIT_AS=4GiB: an attacker connection plays one hostile case and ends by FIN, RST (SO_LINGER 0), half-close, mid-request cut or never reading; a witness connection opened before does SET/GET/ECHO around each attack and must get exact replies; in one attack class out of eight a slow-reading witness (32 KiB receive buffer) fetches its own 8 MiB value while another client fetches a different 8 MiB value four times, and both must get exactly their own bytes; a fresh dial + PING must succeed; child exit = violation. distinct = hash of stream+handler (in-process) / attack stream+ending (process level)"
 		},
 		Assumptions: []string{"allocation behaviour is judged under RLIMIT_AS=4GiB", "handlers other than the example store are represented by the recording double (non-panicking)"},
 		Setup: func(tier string, seed uint64) int {
